@@ -253,7 +253,7 @@ def editApplies (k : Model.GKind) (e : Model.GEdit) (o : Model.GObj) : Bool :=
 /-- the caller may set the flag octet of the frame control directly in the object's header (there is no setter):
 the serialisers copy the header as it is -/
 def withFcFlags (o : Model.GObj) : Option Nat → Model.GObj
-  | some n => { o with fc := [o.fc.getD 0 0, UInt8.ofNat n] }
+  | some n => Model.setFcFlags o n          -- under the theorems of Props/C07Any.lean
   | none => o
 
 def runGen (k : Model.GKind) (a : Model.GArgs) (edits : List Model.GEdit) (bufLen : Option Nat) (fcFlags : Option Nat := none) : String :=
